@@ -103,6 +103,14 @@ impl<F: Float> ParamGuard for FastIcaParams<F> {
     type Error = FastIcaError;
 
     fn check_ref(&self) -> Result<&Self::Checked, Self::Error> {
+        if let GFunc::Logcosh(alpha) = self.0.gfunc {
+            if !(1.0..=2.0).contains(&alpha) {
+                return Err(FastIcaError::InvalidValue(format!(
+                    "alpha must be between 1 and 2 inclusive, got {}",
+                    alpha
+                )));
+            }
+        }
         if self.0.tol < F::zero() {
             Err(FastIcaError::InvalidTolerance(self.0.tol.to_f32().unwrap()))
         } else {
